@@ -120,4 +120,11 @@ var props = map[string]*propCfg{
 		Quick:       []legCfg{mc("distinct", "MC_C06", "C06_quick.cfg", 10*time.Minute), tr("distinct", "EngineTrace", 300, 4)},
 		Thorough:    []legCfg{mc("distinct", "MC_C06", "C06_thorough.cfg", 40*time.Minute), tr("distinct", "EngineTrace", 2000, 12)},
 	},
+	"C15": {
+		ID: "C15", Level: "model_checking", Exhaustive: true,
+		Rule:        "TLC enumerates every ordered pair over the domain: every Go numeric kind of the run x every one of 31 boundary points it represents exactly (-2^53 .. 2^53: negatives, zero, halves, min/max of the narrow kinds and their neighbours) plus 11 strings (empty, numeric-looking, prefixes of each other); triples by quantifying over the third value in the invariants. Every pair is exported; the harness builds the real Go values, checks the specification's %v text against fmt, calls compare.Compare and runs the six comparison operators of WHERE on a natively typed row. Non-trivial: operands of different numeric kinds, or a string operand; distinct = distinct ordered pairs.",
+		Assumptions: append([]string{"float64 holds every point of the domain exactly (|x| <= 2^53): 'within the exactly-representable range' of the statement"}, baseAssumptions...),
+		Quick:       []legCfg{mc("pairs", "MC_C15", "C15_quick.cfg", 10*time.Minute)},
+		Thorough:    []legCfg{mc("pairs", "MC_C15", "C15_thorough.cfg", 30*time.Minute)},
+	},
 }
